@@ -272,6 +272,8 @@ def run(ctx):
             return _replay.run_native(script, {'obligation': ob.name}, timeout=300)
         return fn
     ctx.replayers['*'] = _replayer('nego.py')
+    ctx.native_crosschecks.append(('nego.py', {'obligation': 'asceprovider.AssociationRequester._request#'}, 'request / reply patterns / get_scu'))
+    ctx.native_crosschecks.append(('nego.py', {'obligation': 'applicationentity.AEBase.update_context_def_list#'}, 'id allocation (the known finding shows up here)'))
     ctx.assumptions += [
         'the reply is an A-ASSOCIATE-AC in standard item order whose answers all carry ids the requester proposed '
         '(an accepted context that was never proposed makes _request raise KeyError; the statement speaks of '
